@@ -143,6 +143,16 @@ def one(ctx, rows, s, j, zstep, desc):
     inp = dict(desc, zeta_step=zstep, s=s, j=j)
     if any(st.get(k, ("x",))[0] != "ok" for k in ("load", "classify", "grid")):
         ctx.count("early_step_failed")
+        failed = next(k for k in ("load", "classify", "grid") if st.get(k, ("x",))[0] != "ok")
+        ctx.case(("c13-early", str(rows)[:2000], zstep, s, j), True)
+        if failed == "grid":
+            # every generated record has water levels: the grid command has no reason to refuse this step
+            ctx.violation("impl-violation", "c13Holds", {"input": inp, "impl": {k: list(v) for k, v in st.items()}, "oracle": {
+                "name": "c13Holds", "result": False,
+                "witness": {"why": "`set-zeta-grid` fails: no level of the curves can belong to the grid", "status": list(st["grid"])}}})
+        else:
+            ctx.corr_break("generated record is loaded and classified (prerequisite of the curves)",
+                           {"input": inp, "impl": {k: list(v) for k, v in st.items()}})
         return
     m = P.model_pipeline(ctx, t, zstep)
     ok_both = True
@@ -151,6 +161,12 @@ def one(ctx, rows, s, j, zstep, desc):
         if fail is not None:
             ok_both = False
             ctx.count("curve_not_assembled_" + fail["kind"])
+            if fail["kind"] == "other":
+                # not one of the refusals the model predicts (no body of overlapping intervals): the curve tables
+                # are empty and every clause about their rows would pass vacuously
+                ctx.violation("impl-violation", "c13Holds", {"input": inp, "impl": list(st[cmd]), "oracle": {
+                    "name": "c13Holds", "result": False,
+                    "witness": dict(fail, why="`spowtd %s` fails although the model assembles the curve" % cmd)}})
             continue
         if P.in_guard_band(t):
             ctx.count("boundary_skipped")
